@@ -300,3 +300,10 @@ func VerifWhipTrack(c *WhipClient, kind webrtc.RTPCodecType, trackID, rid string
 	h(tr, recv)
 	return true
 }
+
+// SetWriteCap replaces the (empty) write queue by one of the given capacity
+// (StartClient's is 100; the mirror's default is large because the harness,
+// not a writer goroutine, takes the messages out).
+func (v *VerifClient) SetWriteCap(n int) {
+	v.C.writeCh = make(chan interface{}, n)
+}
